@@ -1,6 +1,6 @@
-\* M+G (thorough, exhaustive, flat): <= 4 members over the size classes 1, 2, 4, 8, pointer; scalars and arrays of 2; both pointer sizes
+\* M+G (thorough, exhaustive, flat): <= 4 members over the size classes 1, 2, 8, pointer; scalars and arrays of 2; both pointer sizes
 CONSTANTS
-  RawT = {"B", "h", "I", "q", "P"}
+  RawT = {"B", "h", "q", "P"}
   ArrN = {2}
   NestN = {2}
   Ords = {""}
